@@ -15,6 +15,9 @@ theorems the other half; the session theorems also show their invariants are pre
 statements hold along every request sequence.
 -/
 import IpcHub.Lemmas.AuthRel
+import IpcHub.Lemmas.AuthTokens
+import IpcHub.Lemmas.Ids
+import IpcHub.Lemmas.AuthWitness
 import IpcHub.Model.AuthInst
 namespace IpcHub.Props.C11
 open IpcHub.PathMatch IpcHub.PatternLang IpcHub.Auth IpcHub.Monitor
@@ -284,5 +287,253 @@ theorem c11_wsp_session_init_partial (w : World) (i : Nat) (c : WsConn)
   · intro _ d hd; simp at hd
   · intro h; simp at h
   · intro h; simp at h
+
+
+/-! ## tokens
+
+`TState.run genCfg TState.init ops` is the token table after ANY history `ops` of logins, refreshes
+(with any string), access checks (with any string; they delete expired entries), expiry sweeps and
+ticks of the clock.  Secrets are handles: the k-th call of `security.NewSecret()` yields `k`
+(unpredictability is `c11_token_secrecy`, absence of collisions is assumed). -/
+
+/-- AccessCheck accepts ONLY the access secret of a stored, unexpired record — after every history.
+    In particular a refresh secret never authenticates and an expired token is refused. -/
+theorem c11_tokens_accept_only_valid_access (ops : List TokOp) (k : Nat) :
+    let s := TState.init.run Auth.genCfg ops
+    (∀ u, (accessCheck s.t k s.now).2 = some u →
+        ∃ tok, tget s.t k = some tok ∧ tok.a = k ∧ tok.aexp > s.now ∧ tok.user = u) ∧
+    (∀ tok, tget s.t k = some tok → k = tok.r → (accessCheck s.t k s.now).2 = none) ∧
+    (∀ tok, tget s.t k = some tok → tok.aexp ≤ s.now → (accessCheck s.t k s.now).2 = none) := by
+  intro s
+  have hm : TM s.t s.next := TM.run Auth.genCfg ops TState.init TM.nil
+  refine ⟨fun u h => access_sound s.t k s.now u h, ?_, ?_⟩
+  · intro tok hg hk
+    have hsh := hm.shape (k, tok) (tget_mem hg)
+    simp only at hsh
+    have hne : ¬ tok.a = k := by omega
+    simp [accessCheck, hg, hne]
+  · intro tok hg he
+    have : ¬ tok.aexp > s.now := by omega
+    unfold accessCheck
+    rw [hg]
+    by_cases ha : tok.a = k <;> simp [ha, this]
+
+/-- A token that was refreshed away is refused for ever: after `Refresh` with the refresh secret of a
+    stored record, neither secret of that record is ever accepted again — not by AccessCheck and not
+    by another Refresh — whatever happens later. -/
+theorem c11_tokens_superseded_refused_forever (ops later : List TokOp) (r : Nat) (old : Tok) :
+    let s := TState.init.run Auth.genCfg ops
+    tget s.t r = some old → old.r = r →
+    let s' := (s.step Auth.genCfg (.refresh r)).run Auth.genCfg later
+    accessCheck s'.t old.a s'.now = (s'.t, none) ∧ accessCheck s'.t old.r s'.now = (s'.t, none) ∧
+      (refreshToken Auth.genCfg s'.t s'.next old.r s'.now).2.2 = none := by
+  intro s hg hr s'
+  have hm : TM s.t s.next := TM.run Auth.genCfg ops TState.init TM.nil
+  obtain ⟨h1, h2, h3, h4⟩ := refresh_supersedes Auth.genCfg s hm r old hg hr
+  have g1 := gone_stays_gone Auth.genCfg old.a later _ h3 h1
+  have g2 := gone_stays_gone Auth.genCfg old.r later _ h4 h2
+  refine ⟨access_none_of_absent _ _ _ g1, access_none_of_absent _ _ _ g2, ?_⟩
+  show (refreshToken Auth.genCfg s'.t s'.next old.r s'.now).2.2 = none
+  unfold refreshToken
+  rw [show tget s'.t old.r = none from g2]
+
+/-- No false refusal: the access secret of a stored record is accepted, for its user, after every
+    continuation in which its own refresh secret is not used and its life time has not run out. -/
+theorem c11_tokens_valid_accepted (ops later : List TokOp) (a : Nat) (tok : Tok) :
+    let s := TState.init.run Auth.genCfg ops
+    tget s.t a = some tok → tok.a = a → (∀ op ∈ later, op ≠ .refresh tok.r) →
+    let s' := s.run Auth.genCfg later
+    s'.now < tok.aexp → accessCheck s'.t a s'.now = (s'.t, some tok.user) := by
+  intro s hg ha hops s' hnow
+  have hm : TM s.t s.next := TM.run Auth.genCfg ops TState.init TM.nil
+  have := valid_survives Auth.genCfg a tok ha later s hm hg hops hnow
+  exact access_complete _ _ _ tok this ha (by omega)
+
+/-- what login and refresh store: a record under both of its (new) secrets, alive for the generated
+    life times -/
+theorem c11_tokens_issue (ops : List TokOp) (u : List Char) :
+    let s := TState.init.run Auth.genCfg ops
+    let s' := s.step Auth.genCfg (.login u)
+    ∃ tok, tget s'.t tok.a = some tok ∧ tget s'.t tok.r = some tok ∧ tok.user = u ∧ tok.a = s.next ∧
+      tok.aexp = s.now + 7200 ∧ tok.rexp = s.now + 604800 := by
+  intro s s'
+  refine ⟨{ user := u, a := s.next, aexp := s.now + 7200, r := s.next + 1, rexp := s.now + 604800 }, ?_, ?_, rfl, rfl, rfl, rfl⟩
+  · show tget (newToken Auth.genCfg s.t s.next u s.now).1 s.next = _
+    unfold Auth.newToken
+    simp only
+    rw [tget_tput_ne _ _ _ _ (by omega), tget_tput_self]
+    rfl
+  · show tget (newToken Auth.genCfg s.t s.next u s.now).1 (s.next + 1) = _
+    unfold Auth.newToken
+    simp only
+    rw [tget_tput_self]
+    rfl
+
+
+/-! ## secrecy of tokens and nonces -/
+
+/-- **Secrecy.**  In the current source every token and digest nonce is a crypto/rand draw
+    (`security.NewSecret`; the six source sites are pinned), and such a draw cannot be computed by an
+    attacker who is given ANY set of terms that do not contain it — any number of `Session:`
+    headers, channel ids, his own tokens and nonces, in any rendering — using the invertible
+    renderings backwards, every public function forwards, and arithmetic on counter values. -/
+theorem c11_token_secrecy :
+    Auth.genSource = .randomDraw ∧
+    ∀ (K : List Ids.Term) (c i : Nat), (∀ k ∈ K, Ids.mentions k (.rnd i) = false) →
+      Ids.derivable K (Ids.secretTerm Auth.genSource c i) = false := by
+  have e1 : Gen.tokenField_AToken = Expected.tokenField_AToken := rfl
+  have e2 : Gen.tokenField_RToken = Expected.tokenField_RToken := rfl
+  have e3 : Gen.skel_newSecret = Expected.skel_newSecret := rfl
+  have e4 : Gen.securityRandImports = Expected.securityRandImports := rfl
+  have e5 : Gen.skel_rtspNewSessionWs = Expected.skel_rtspNewSessionWs := rfl
+  have e6 : Gen.skel_rtspCheckAuth = Expected.skel_rtspCheckAuth := rfl
+  have hs : Auth.genSource = .randomDraw := by
+    simp only [Auth.genSource, e1, e2, e3, e4, e5, e6, decide_true, Bool.and_self, if_true]
+  refine ⟨hs, ?_⟩
+  intro K c i h
+  rw [hs]
+  exact Ids.rnd_secret K i h
+
+/-- the reviewed shape of the secret source really is crypto/rand, and the token fields use it -/
+theorem c11_secret_source_facts :
+    Expected.securityRandImports = ["crypto/rand"] ∧
+    Expected.tokenField_AToken = "security.NewSecret()" ∧ Expected.tokenField_RToken = "security.NewSecret()" ∧
+    Expected.skel_newSecret = ["call rand.Read(b[:])", "if err != nil {", "}", "call hex.EncodeToString(b[:])",
+      "return hex.EncodeToString(b[:])"] :=
+  ⟨rfl, rfl, rfl, rfl⟩
+
+/-- Why the source had to change (DESIGN §6 #26, fixed by b89a9e1): with tokens = MD5 of the next
+    counter value, ONE `Session:` header (base64 of a counter value) or WSP channel id (decimal)
+    makes every token and nonce derivable — for every counter value and every token. -/
+theorem c11_token_from_session_id_counterexample (c c' i : Nat) :
+    Ids.derivable [.b64 (.ctr c)] (Ids.secretTerm .md5OfCounter c' i) = true ∧
+    Ids.derivable [.dec (.ctr c)] (Ids.secretTerm .md5OfCounter c' i) = true :=
+  ⟨Ids.md5_counter_derivable _ c _ (Or.inl (List.mem_singleton.mpr rfl)),
+   Ids.md5_counter_derivable _ c _ (Or.inr (List.mem_singleton.mpr rfl))⟩
+
+
+/-! ## proved counter-examples: the behaviour before each `fix:` commit
+
+Each of these is the model with ONE source fact switched back (the configurations of
+IpcHub/Lemmas/AuthWitness.lean), on a concrete small world; the monitor's verdict is evaluated by
+`decide`.  They show that the hypotheses `c11_model_flags` supplies are needed, and they are the
+Lean side of the witnesses replayed on the implementation from corpus/C11/. -/
+section
+open IpcHub.Auth.Witness
+
+/-- DESIGN §6 #27 (fixed by 3f411ea): with `User.init` appending, bob — narrowed from `/a/*` to `/x/y` —
+    still passes the model's permission check for `/a/b`, which the rights as last saved forbid. -/
+theorem c11_rights_append_counterexample :
+    let h : List AdminOp := [.save (user "bob" "/x/y" "") false, .save (user "bob" "/a/*" "") true]
+    (match getUser cfgAppend (usersOf cfgAppend h) "bob".toList with
+      | none => false
+      | some u => u.validatePermission cfgAppend "/a/b".toList .pull) = true ∧
+    allowed Witness.env h "bob".toList .pull "/a/b".toList = false := by
+  decide
+
+/-- DESIGN §6 #25 (fixed by f816728): the segment `/streams/cam/1/3.ts` of stream `/cam/1` is served to
+    bob, whose right `/cam/1/+` does not cover `/cam/1` (unsound), and refused to alice, whose right
+    is exactly `/cam/1` (incomplete). -/
+theorem c11_ts_path_counterexample :
+    let h : List AdminOp := [.save (user "bob" "/cam/1/+" "") true, .save (user "alice" "/cam/1" "") true]
+    let w := world cfgTsRaw h ["bob", "alice"] ["/cam/1", "/cam/1/3"]
+    let sw := sworld cfgTsRaw h ["bob", "alice"]
+    let p := "/streams/cam/1/3.ts".toList
+    (httpStream cfgTsRaw w .get p (some 0)).2 = .serve .ts "/cam/1".toList ∧
+    judgeHttp Witness.env sw p (some 0) (httpStream cfgTsRaw w .get p (some 0)).2 = .unsound ∧
+    (httpStream cfgTsRaw w .get p (some 2)).2 = .forbidden ∧
+    judgeHttp Witness.env sw p (some 2) (httpStream cfgTsRaw w .get p (some 2)).2 = .incomplete := by
+  decide
+
+/-- New finding (fixed by 764697a): with the right checked on the raw URL path, a CONNECT request for
+    `/streams/x/../a/b.flv` passes bob's right `/x/*` and is served the stream `/a/b`. -/
+theorem c11_noncanonical_path_counterexample :
+    let h : List AdminOp := [.save (user "bob" "/x/*" "") true]
+    let w := world cfgRawPath h ["bob"] ["/a/b"]
+    let sw := sworld cfgRawPath h ["bob"]
+    let p := "/streams/x/../a/b.flv".toList
+    (httpStream cfgRawPath w .connect p (some 0)).2 = .serve .flv "/a/b".toList ∧
+    judgeHttp Witness.env sw p (some 0) (httpStream cfgRawPath w .connect p (some 0)).2 = .unsound ∧
+    -- a GET of the same URL is redirected by net/http before any handler runs
+    (httpStream cfgRawPath w .get p (some 0)).2 = .redirect := by
+  decide
+
+/-- DESIGN §6 #24 (fixed by 78415a3): on a WebSocket session opened for `/x/y`, carl (pull `/x/y`, no
+    push right at all) ANNOUNCEs `/a/b`, then DESCRIBEs and gets the SDP of `/a/b`; and he RECORDs
+    a stream on `/live/evil`. -/
+theorem c11_ws_announce_bypass_counterexample :
+    let h : List AdminOp := [.save (user "carl" "/x/y" "") true]
+    let w := world cfgWsOpen h ["carl"] ["/a/b", "/x/y"]
+    let sw := sworld cfgWsOpen h ["carl"]
+    let c : WsConn := { path := "/x/y".toList, user := "carl".toList }
+    let s0 := newRtspSess w 1000 (some c)
+    let ann : RtspReq := { method := .announce, urlPath := "/a/b".toList, cred := none }
+    let r1 := rtspStep cfgWsOpen w s0 ann
+    let desc : RtspReq := { method := .describe, urlPath := "/whatever".toList, cred := none }
+    let r2 := rtspStep cfgWsOpen r1.1 r1.2.1 desc
+    r1.2.2.code = 200 ∧ r2.2.2 = { code := 200, eff := .describe "/a/b".toList } ∧
+    judgeRtsp Witness.env sw { resource := "/a/b".toList, publishing := true } (some c) desc r2.2.2 = .unsound ∧
+    (let ann2 : RtspReq := { method := .announce, urlPath := "/live/evil".toList, cred := none }
+     let a1 := rtspStep cfgWsOpen w s0 ann2
+     let a2 := rtspStep cfgWsOpen a1.1 a1.2.1
+        { method := .setup, urlPath := "/live/evil".toList, cred := none, tr := { spec := some .tcp, modeParam := some .record, bad := false } }
+     let rec_ : RtspReq := { method := .record, urlPath := "/live/evil".toList, cred := none }
+     let a3 := rtspStep cfgWsOpen a2.1 a2.2.1 rec_
+     a3.2.2 = { code := 200, eff := .publish "/live/evil".toList } ∧
+     judgeRtsp Witness.env sw { resource := "/live/evil".toList, publishing := true } (some c) rec_ a3.2.2 = .unsound) := by
+  decide
+
+/-- New finding (fixed by 7b1536d): after one wrong digest response the 401 shows the old nonce; bob's
+    correct response to the nonce he was shown is refused — the monitor calls that incomplete. -/
+theorem c11_digest_nonce_lockout_counterexample :
+    let h : List AdminOp := [.save (user "bob" "/a/b" "") true]
+    let w := world cfgStaleNonce h [] ["/a/b"]
+    let sw := sworld cfgStaleNonce h []
+    let s0 := newRtspSess w 0 none
+    let q (pw : String) (c : Bool) : RtspReq :=
+      { method := .describe, urlPath := "/a/b".toList,
+        cred := if c then some { user := "bob".toList, secret := .plain pw.toList, fresh := true } else none }
+    let r0 := rtspStep cfgStaleNonce w s0 (q "" false)          -- 401, shows the nonce
+    let r1 := rtspStep cfgStaleNonce w r0.2.1 (q "wrong" true)  -- 401, nonce replaced, old one shown
+    let r2 := rtspStep cfgStaleNonce w r1.2.1 (q "pw" true)     -- the right password, the shown nonce
+    r0.2.2.code = 401 ∧ r1.2.2.code = 401 ∧ r2.2.2.code = 401 ∧
+    judgeRtsp Witness.env sw { resource := "/a/b".toList } none (q "pw" true) r2.2.2 = .incomplete ∧
+    -- with the repaired code the same exchange succeeds
+    (let g := cfgFixed
+     let t0 := rtspStep g w s0 (q "" false)
+     let t1 := rtspStep g w t0.2.1 (q "wrong" true)
+     let t2 := rtspStep g w t1.2.1 (q "pw" true)
+     t2.2.2 = { code := 200, eff := .describe "/a/b".toList }) := by
+  decide
+
+/-- DESIGN §6 #28 (fixed by a213511, 5313f25): carl's data channel (opened for `/x/y`) JOINs alice's
+    playing control session for `/a/b` and is accepted; the monitor objects. -/
+theorem c11_wsp_join_any_channel_counterexample :
+    let h : List AdminOp := [.save (user "carl" "/x/y" "") true, .save (user "alice" "/a/b" "") true]
+    let w := world cfgJoinAny h ["alice", "carl"] ["/a/b", "/x/y"]
+    let sw := sworld cfgJoinAny h ["alice", "carl"]
+    let ctl : WsConn := { path := "/a/b".toList, user := "alice".toList }
+    let dc : WsConn := { path := "/x/y".toList, user := "carl".toList }
+    let s : WspSess := { chan := 0, conn := ctl, path := "/a/b".toList, hasSdp := true, status := .playing,
+                         attached := some "/a/b".toList }
+    (wspJoin cfgJoinAny w (some s) dc).1 = 200 ∧
+    judgeJoin Witness.env sw (some (ctl, s.attached)) dc (wspJoin cfgJoinAny w (some s) dc).1 = .unsound ∧
+    (wspJoin cfgFixed w (some s) dc).1 = 403 := by
+  decide
+
+/-- (same commits) a WSP session PLAYs after its user's right was narrowed: before the repair the
+    right was only looked at when the WebSocket was opened. -/
+theorem c11_wsp_play_after_narrowing_counterexample :
+    let h : List AdminOp := [.save (user "alice" "/x/y" "") false, .save (user "alice" "/a/b" "") true]
+    let w := world cfgWspNoRecheck h ["alice"] ["/a/b"]
+    let sw := sworld cfgWspNoRecheck h ["alice"]
+    let ctl : WsConn := { path := "/a/b".toList, user := "alice".toList }
+    let s : WspSess := { chan := 0, conn := ctl, path := "/a/b".toList, hasSdp := true, status := .ready }
+    (wspStep cfgWspNoRecheck w s .play .video true).2 = { code := 200, eff := .play "/a/b".toList } ∧
+    judgeWsp Witness.env sw ctl none (wspStep cfgWspNoRecheck w s .play .video true).2 = .unsound ∧
+    (wspStep cfgFixed w s .play .video true).2.code = 403 := by
+  decide
+
+end
 
 end IpcHub.Props.C11
